@@ -95,11 +95,11 @@ Definition encode_text_stl (s : str) : str :=
 (* ================= rows ================= *)
 
 (* STLItalics / STLUnderline / STLBoxing (nil or a value), TeletextColor (index 0..7), double height/size/width *)
-Record eattr := mkEattr { a_it : option bool; a_un : option bool; a_bx : option bool;
+Record sattr_stl := mkSattrStl { a_it : option bool; a_un : option bool; a_bx : option bool;
                           a_col : option N; a_dh : option bool; a_ds : option bool; a_dw : option bool }.
-Definition eattr0 : eattr := mkEattr None None None None None None None.
+Definition sattr0_stl : sattr_stl := mkSattrStl None None None None None None None.
 (* a line item: trimmed text, attributes, TeletextSpacesBefore / After (teletext rows only) *)
-Record erun := mkErun { ru_text : str; ru_at : eattr; ru_sb : option N; ru_sa : option N }.
+Record erun := mkErun { ru_text : str; ru_at : sattr_stl; ru_sb : option N; ru_sa : option N }.
 
 (* stlStyler.parseSpacingAttribute: which attribute (0 italics, 1 underline, 2 boxing) gets which value *)
 Definition sty_code (v : N) : option (N * bool) :=
@@ -107,14 +107,14 @@ Definition sty_code (v : N) : option (N * bool) :=
   else if v =? 130 then Some (1, true) else if v =? 131 then Some (1, false)
   else if v =? 132 then Some (2, true) else if v =? 133 then Some (2, false) else None.
 (* stlStyler.update: the attribute the styler carries replaces the run's *)
-Definition sty_update (a : eattr) (c : N * bool) : eattr :=
+Definition sty_update (a : sattr_stl) (c : N * bool) : sattr_stl :=
   let '(k, b) := c in
-  if k =? 0 then mkEattr (Some b) (a_un a) (a_bx a) (a_col a) (a_dh a) (a_ds a) (a_dw a)
-  else if k =? 1 then mkEattr (a_it a) (Some b) (a_bx a) (a_col a) (a_dh a) (a_ds a) (a_dw a)
-  else mkEattr (a_it a) (a_un a) (Some b) (a_col a) (a_dh a) (a_ds a) (a_dw a).
+  if k =? 0 then mkSattrStl (Some b) (a_un a) (a_bx a) (a_col a) (a_dh a) (a_ds a) (a_dw a)
+  else if k =? 1 then mkSattrStl (a_it a) (Some b) (a_bx a) (a_col a) (a_dh a) (a_ds a) (a_dw a)
+  else mkSattrStl (a_it a) (a_un a) (Some b) (a_col a) (a_dh a) (a_ds a) (a_dw a).
 
 (* appendOpenSubtitleLineItem; [items] is reversed *)
-Definition append_open (items : list erun) (text : str) (a : eattr) : list erun :=
+Definition append_open (items : list erun) (text : str) (a : sattr_stl) : list erun :=
   match trim_space text with
   | [] => items
   | t => mkErun t a None None :: items
@@ -123,7 +123,7 @@ Definition append_open (items : list erun) (text : str) (a : eattr) : list erun 
 (* parseOpenSubtitleRow.  A fresh styler per byte: a style code always "has changed" (fresh pointers), closes
    the current erun (kept only when not blank) and updates the attributes; [acc] is the character handler's
    pending accent, which outlives the row. *)
-Fixpoint open_row (row : str) (items : list erun) (text : str) (a : eattr) (acc : option N)
+Fixpoint open_row (row : str) (items : list erun) (text : str) (a : sattr_stl) (acc : option N)
   : res (list erun * option N) :=
   match row with
   | [] => Ok (rev (append_open items text a), acc)
@@ -138,7 +138,7 @@ Fixpoint open_row (row : str) (items : list erun) (text : str) (a : eattr) (acc 
 (* appendTeletextLineItem *)
 Fixpoint lead_spaces (s : str) : N :=
   match s with c :: r => if c =? 32 then 1 + lead_spaces r else 0 | [] => 0 end.
-Definition stl_append_ttx (items : list erun) (text : str) (a : eattr) : list erun :=
+Definition stl_append_ttx (items : list erun) (text : str) (a : sattr_stl) : list erun :=
   match trim_space text with
   | [] => items
   | t => mkErun t a (Some (lead_spaces text)) (Some (lead_spaces (rev text))) :: items
@@ -146,7 +146,7 @@ Definition stl_append_ttx (items : list erun) (text : str) (a : eattr) : list er
 
 (* parseTeletextRow with the STL styler.  Pointer comparisons: colours are package-level pointers (equal iff the
    same colour); *bool attributes are fresh allocations (different from everything unless both nil). *)
-Fixpoint stl_ttx_row (row : str) (items : list erun) (text : str) (a : eattr) (started : bool) (acc : option N)
+Fixpoint stl_ttx_row (row : str) (items : list erun) (text : str) (a : sattr_stl) (started : bool) (acc : option N)
   : list erun * option N :=
   match row with
   | [] => (rev (stl_append_ttx items text a), acc)
@@ -163,7 +163,7 @@ Fixpoint stl_ttx_row (row : str) (items : list erun) (text : str) (a : eattr) (s
       if changed then
         let items' := if started' then stl_append_ttx items text a else items in
         let text' := if started' then [] else text in
-        let a1 := mkEattr (a_it a) (a_un a) (a_bx a)
+        let a1 := mkSattrStl (a_it a) (a_un a) (a_bx a)
                     (match color with Some c => Some c | None => a_col a end)
                     (match dh with Some b => Some b | None => a_dh a end)
                     (match ds with Some b => Some b | None => a_ds a end)
@@ -320,7 +320,7 @@ Fixpoint rows_open (rows : list str) (acc : option N) (lines : list (list erun))
   match rows with
   | [] => Ok (rev lines, acc)
   | row :: r =>
-    do x <- open_row row [] [] eattr0 acc;
+    do x <- open_row row [] [] sattr0_stl acc;
     let '(l, acc') := x in
     rows_open r acc' (match l with [] => lines | _ => l :: lines end)
   end.
@@ -330,7 +330,7 @@ Fixpoint rows_ttx (rows : list str) (acc : option N) (lines : list (list erun)) 
   | row :: r =>
     (* WriteToSTL omits the start box code: a row without one is read as boxed from its first column *)
     let row' := if nmem 11 row then row else 11 :: row in
-    let '(l, acc') := stl_ttx_row row' [] [] eattr0 false acc in
+    let '(l, acc') := stl_ttx_row row' [] [] sattr0_stl false acc in
     rows_ttx r acc' (match l with [] => lines | _ => l :: lines end)
   end.
 
